@@ -3,7 +3,8 @@
 Bounded-exhaustive exploration of the real code (DESIGN.md, C14).  Five parts, every one a complete
 product of explicit alphabets (nothing is sampled):
 
-``grid``        grid class x constructor parameters x python/numpy parameter types; every case runs all
+``grid``        grid class x constructor parameters (incl. extreme scales: holes of 5e-324..1e-8, tiny / huge /
+                nearly equal bounds, compared bit for bit) x python/numpy parameter types; every case runs all
                 restore routes (``from_state(state)``, ``GridBase.from_state(dict)``, JSON
                 ``state_serialized``, ``copy()``, ``copy.copy``, ``copy.deepcopy``, pickle)
 ``field``       grid x field class x dtype x label; routes ``attributes_serialized`` ->
@@ -164,9 +165,22 @@ def _canon(x):
     return x
 
 
+def _unhex(x):
+    """hex floats of an observation back to readable numbers (for messages only)"""
+    if isinstance(x, list):
+        return [_unhex(v) for v in x]
+    if isinstance(x, str) and ("0x" in x or x in ("inf", "-inf", "nan")):
+        try:
+            return float.fromhex(x)
+        except ValueError:
+            return x
+    return x
+
+
 def _gprimary(g):
     radial = type(g).__name__ in RADIAL
-    b = [[float(lo), float(hi)] for lo, hi in g.axes_bounds]
+    # float.hex: bounds have to survive bit for bit (python's repr/JSON round-trips floats exactly)
+    b = [[float(lo).hex(), float(hi).hex()] for lo, hi in g.axes_bounds]
     inner = b[0][0] if radial else None
     if radial:
         b[0][0] = None  # the inner radius is compared on its own
@@ -204,13 +218,13 @@ def grid_diff(g, h, mech):
     out = []
     for key in ("class", "inner radius", "axes_bounds", "shape", "periodicity", "axes"):
         if p[key] != q[key]:
-            if key == "inner radius" and p[key] and q[key] == 0:
+            if key == "inner radius" and q[key] and float.fromhex(p[key]) > 0 and float.fromhex(q[key]) == 0:
                 what = f"{mech} loses inner radius"
             elif key == "class":
                 what = "class differs"
             else:
                 what = f"{key} differ" + ("s" if key in ("inner radius", "shape", "periodicity") else "")
-            out.append((what, {"original": p[key], "restored": q[key]}))
+            out.append((what, {"original": _unhex(p[key]), "restored": _unhex(q[key])}))
     if out:
         return out
     if g.axes_bounds != h.axes_bounds:
@@ -366,8 +380,14 @@ def _finish(case, fn_name, runner, viols, extra=None):
 
 def _run_grid(case):
     spec = case["grid"]
-    g = make_grid(spec)
-    before = (_gprimary(g), _gderived(g))
+    try:
+        g = make_grid(spec)
+        before = (_gprimary(g), _gderived(g))
+    except Exception as exc:  # noqa: BLE001
+        if not spec.get("extreme"):
+            raise
+        # extreme-scale parameters may be rejected when the grid is built (nothing to restore then)
+        return [], [f"{spec['cls']}: extreme-scale parameters rejected at construction: {type(exc).__name__}"], 0
     cls, tag = type(g).__name__, _tag(g)
     viols, refs, n = [], [], 0
     for route in case.get("routes") or GRID_ROUTES:
@@ -847,6 +867,28 @@ def grid_specs(tier):
         cshapes += [[7, 2], [3, 5], 4]
     for radius, bounds_z, shape, pz in itertools.product(cradii, zs, cshapes, [False, True]):
         specs.append({"cls": "CylindricalSymGrid", "radius": radius, "bounds_z": bounds_z, "shape": shape, "periodic_z": pz})
+    # --- extreme scales (both tiers): tiny / huge / nearly equal values, where an `isclose` or a rounding
+    # shortcut in the state handling would bite; same oracle (bounds bit for bit)
+    x_r = [[2e-9, 5e-8], [1e-12, 1.0], [1e-8, 1.0], [1e-9, 1e-8], [1e-300, 1e-299], [1e15, 1e15 + 8],
+           [1.0, 1.0000000000000004], [5e-324, 1.0], 1e-12, 1e15, 1e-300]
+    x_b = [[1e-12, 3e-12], [1e15, 1e15 + 8], [-1e-300, 1e-300], [1.0, 1.0000000000000004], [0.1, 0.30000000000000004],
+           [-1e-9, 2e-9], [1e-300, 1e-299], [-1e15 - 8, -1e15], [-0.0, 1e-8], [0.7, 0.7000000000000002]]
+    extreme = []
+    for bounds, shape, per in itertools.product([[b] for b in x_b], [[2], 1, 3], _flags(1)):
+        extreme.append({"cls": "CartesianGrid", "bounds": bounds, "shape": shape, "periodic": per})
+    for bounds in ([x_b[0], x_b[1]], [x_b[3], x_b[2]], [x_b[4], x_b[7]]):
+        for shape, per in itertools.product([[2, 3], [1, 1]], _flags(2)):
+            extreme.append({"cls": "CartesianGrid", "bounds": bounds, "shape": shape, "periodic": per})
+    for per in _flags(3):
+        extreme.append({"cls": "CartesianGrid", "bounds": [x_b[5], x_b[1], x_b[9]], "shape": [2, 1, 2], "periodic": per})
+    for cls in ("PolarSymGrid", "SphericalSymGrid"):
+        for radius, shape in itertools.product(x_r, [2, 1, [3]]):
+            extreme.append({"cls": cls, "radius": radius, "shape": shape})
+    for radius, bounds_z, shape, pz in itertools.product(x_r[:6] + x_r[8:10], x_b[:5], [2, [1, 3]], [False, True]):
+        extreme.append({"cls": "CylindricalSymGrid", "radius": radius, "bounds_z": bounds_z, "shape": shape, "periodic_z": pz})
+    for radius, bounds_z in itertools.product([2, [1, 3]], x_b[5:]):
+        extreme.append({"cls": "CylindricalSymGrid", "radius": radius, "bounds_z": bounds_z, "shape": 2, "periodic_z": True})
+    specs += [dict(s, extreme=True) for s in extreme]
     # every parameter set also with numpy scalar / array types instead of python numbers
     return [dict(s, np=False) for s in specs] + [dict(s, np=True) for s in specs]
 
@@ -873,8 +915,13 @@ def field_grid_specs(tier):
         {"cls": "CylindricalSymGrid", "radius": [1, 2.5], "bounds_z": [-1, 1], "shape": [2, 3], "periodic_z": True},
         {"cls": "CylindricalSymGrid", "radius": 3, "bounds_z": [-2, -1], "shape": [1, 1], "periodic_z": True},
     ]
+    # extreme scale: a hole far below any `isclose` tolerance
+    specs.append({"cls": "PolarSymGrid", "radius": [2e-9, 5e-8], "shape": 2})
     if tier == "thorough":
         specs += [
+            {"cls": "SphericalSymGrid", "radius": [1e-12, 1.0], "shape": 2},
+            {"cls": "CylindricalSymGrid", "radius": [1e-8, 1.0], "bounds_z": [1e15, 1e15 + 8], "shape": [2, 1], "periodic_z": True},
+            {"cls": "CartesianGrid", "bounds": [[1e-12, 3e-12], [0.1, 0.30000000000000004]], "shape": [2, 2], "periodic": [True, False]},
             {"cls": "UnitGrid", "shape": [2, 1, 3], "periodic": [False, True, True]},
             {"cls": "CartesianGrid", "bounds": [[0.1, 0.7], [-0.3, 0.4]], "shape": [1, 4], "periodic": [True, True]},
             {"cls": "CartesianGrid", "bounds": [[-3, -1], [2, 5], [1 / 3, 2 / 3]], "shape": [3, 2, 2], "periodic": [True, False, True]},
@@ -995,7 +1042,9 @@ def main(run):
     return (
         "complete product of grid class x constructor parameters (radius float/int/(inner,outer)/(0,outer), negative / "
         "non-zero-origin / inexact bounds, upper-bounds-only form, every periodic flag combination in list and scalar form, "
-        "shapes incl. one-cell axes and int/list forms) x python/numpy parameter types, each through 7 restore routes; "
+        "shapes incl. one-cell axes and int/list forms; plus, in both tiers, extreme-scale parameters for every class with "
+        "bounds: inner radii 5e-324..1e-8 against tiny/normal outer radii, tiny/huge/nearly-equal/last-bit bounds and bounds_z) "
+        "x python/numpy parameter types, each through 7 restore routes, bounds compared bit for bit (float.hex); "
         "field grids (every class, hole/no hole, periodic, one-cell) x field class x dtype x label through 6 routes; "
         "collections: all member class sequences up to the tier's length x dtype (incl. mixed member dtypes) x collection "
         "label x member label pattern through 6 routes; from_data: the same sequences x ghost flag x dtype x labels on every "
